@@ -688,7 +688,9 @@ func (self *Analyzer) assignExpression(node pAst.AssignExpression) ast.AnalyzedA
 		resultType = ast.NewNeverType()
 	}
 
-	if err := self.TypeCheck(rhs.Type(), lhs.Type(), TypeCheckOptions{}); err != nil {
+	// Assigning to a place of a function type compares two static types, nothing is cast at runtime
+	// (a function value must still not flow into a place of type `any`).
+	if err := self.TypeCheck(rhs.Type(), lhs.Type(), TypeCheckOptions{AllowFunctionTypes: lhs.Type().Kind() != ast.AnyTypeKind}); err != nil {
 		self.diagnostics = append(self.diagnostics, err.GotDiagnostic)
 		if err.ExpectedDiagnostic != nil {
 			self.diagnostics = append(self.diagnostics, *err.ExpectedDiagnostic)
